@@ -4,7 +4,7 @@ import math
 import numpy as np
 from hypothesis import strategies as st
 
-from vlib import gen, ops
+from vlib import gen, ops, streams, twin
 from vlib.runner import Result, SubCheck, Violation
 
 PROPERTY = "C12"
@@ -35,7 +35,10 @@ DET_LPS = ["EpsilonGreedy", "UCB1", "LinUCB", "LinGreedy"]
 @st.composite
 def clusters_plan_st(draw, tier):
     kind, arms = draw(gen.arms_st(("int", "str"), 1, 4))
-    lp = draw(gen.lp_st(DET_LPS, arms, deterministic=True))
+    if draw(st.integers(0, 2)):
+        lp = draw(gen.lp_st(DET_LPS, arms, deterministic=True))
+    else:   # randomised policies, reproduced through the per-row seed (LinTS excluded: finding D8 of C05)
+        lp = draw(gen.lp_st(["EpsilonGreedy", "Softmax", "ThompsonSampling", "Random", "LinGreedy"], arms))
     cfg = {"arms": arms, "lp": lp,
            "np": ["Clusters", {"n_clusters": draw(st.integers(2, 4)), "is_minibatch": draw(st.booleans())}],
            "seed": draw(st.integers(0, 2 ** 20)), "n_jobs": 1, "backend": None, "arm_kind": kind}
@@ -89,12 +92,14 @@ def evaluate_clusters(plan, ctx):
         raise Violation("stored_rows", "k-means was fit on %d rows, the history since the last fit has %d"
                         % (len(labels), len(cx)))
     linear = cfg["lp"][0] in ops.LINEAR
+    deterministic = twin.is_deterministic(cfg)
     tol = 1e-9 if linear else 0.0
     nt = False
     skipped = False
     for q in plan["queries"]:
         c = int(km.predict(np.asarray([q], dtype=float))[0])
         cell = [i for i, l in enumerate(labels) if l == c]
+        row_seed = int(streams.clone_rng(mab._rng).randint(np.iinfo(np.int32).max, size=1)[0])
         out = ops.apply_op(mab, ["predict_expectations", [q]])
         if ops.is_exc(out):
             raise Violation("unexpected_exception", "predict_expectations(%r) raised %s" % (q, ops.short(out)))
@@ -107,7 +112,7 @@ def evaluate_clusters(plan, ctx):
             continue
         # the cluster policy was trained at the last training call with the arms of that time; arms added since
         # are neutral, arms removed since are gone: a fresh bandit with the *current* arms fit on the cell rows
-        fresh = MAB(list(arms), ops.make_lp(cfg["lp"]), None, cfg["seed"])
+        fresh = MAB(list(arms), ops.make_lp(cfg["lp"]), None, row_seed)
         cd, cr, cc = [dec[i] for i in cell], [rew[i] for i in cell], [cx[i] for i in cell]
         if linear:
             fresh.fit(cd, cr, cc)
@@ -118,6 +123,10 @@ def evaluate_clusters(plan, ctx):
         # an arm added after the last training call has not been seen by the cluster policies yet (even if rows of
         # an earlier arm with the same label are still stored): it holds the neutral value until the next training
         new_arms = _added_since_training(plan)
+        if new_arms and not deterministic:
+            skipped = True          # a randomised draw for an arm the cluster policy has not seen is not modelled
+            ev.append("new_arm_randomised_skipped")
+            continue
         if new_arms:
             ev.append("arm_added_since_training")
             if linear:
@@ -143,7 +152,8 @@ def evaluate_clusters(plan, ctx):
             nt = True
         if len({origin[i] for i in cell}) > 1:
             ev.append("cell_mixes_batches")
-    _batch_equals_rows(mab, plan["queries"], tol)
+    if deterministic:
+        _batch_equals_rows(mab, plan["queries"], tol)
     return Result(nt, ev, skipped)
 
 
